@@ -34,7 +34,7 @@ def run(cfg, timeout):
 
 RULES = {
     "c07": "stateless exploration with loom of the real compression.rs (create_sync_vec, decode_to_end, SyncVecRd, impl Source for SeekableDecoder) and FileSource::read, and (engine B) of the real ContentPack reader: cluster cache Mutex<LruCache> of capacity 1 or 2 (eviction at every other access), the cluster RwLock raw->plain switch (two readers racing to start the decoder), background decoders with 4-byte chunks and the shared BufReader of the file, two readers doing 2+1 (or 2+2) content reads over {two blobs of one compressed cluster, a raw cluster, another compressed cluster}; engine A: one decoder thread fed by a scripted Read (chunks of 2 bytes, short-read scripts {2},{1},{1,2}) and R readers each doing one operation from {get_slice(o,n) for every sub-range incl. one past the end, read(o, long/1), read_exact, stream to the end}; every operation tuple is a configuration; all interleavings at loom's scheduling points (mutex, condvar, thread) with preemption bound 0,1,2 (3 and unbounded where listed); one loom cell per buffer byte makes the unsynchronised buffer accesses visible to the race detector; evaluations = executions (complete schedules), distinct_nontrivial = configurations (operation tuple x short-read script)",
-    "c08": "stateless exploration with loom of the real clusterwriter.rs (ClusterWriterProxy, W ClusterCompressor threads, the ClusterWriter thread, dispatch/fusion channels, back-pressure condvar) driven through ContentPackCreator with an in-memory recipient, 1 blob per cluster (override), every insertion program over {c: hint Yes, r: hint No} of length 1..4 (W=1) / 1..3 (W=2) plus 5 and 6 compressed clusters beyond the back-pressure limit, preemption bound 0,1,2 (3 on the short programs); per execution: creation terminates (no deadlock), addresses as inserted, the produced pack is decoded by the independent decoder and every content resolves to its bytes; evaluations = executions, distinct_nontrivial = (program, W, bound) configurations",
+    "c08": "stateless exploration with loom of the real clusterwriter.rs (ClusterWriterProxy, W ClusterCompressor threads, the ClusterWriter thread, dispatch/fusion channels, back-pressure condvar) driven through ContentPackCreator with an in-memory recipient, 1 blob per cluster (override), every insertion program over {c: hint Yes, r: hint No} of length 1..4 (W=1) / 1..3 (W=2), programs with zero-length contents (e: empty/Yes, f: empty/No) plus 5 and 6 compressed clusters beyond the back-pressure limit, preemption bound 0,1,2 (3 on the short programs); per execution: creation terminates (no deadlock), addresses as inserted, the produced pack is decoded by the independent decoder and every content resolves to its bytes; evaluations = executions, distinct_nontrivial = (program, W, bound) configurations",
 }
 
 
@@ -74,9 +74,14 @@ def c08_jobs(add, ncpu, thorough):
         for pr in progs(n):
             add(["pipeline", "--workers", "1", "--program", pr], [0, 1, 2] + ([3] if n <= 2 else []))
     for pr in progs(4):
-        add(["pipeline", "--workers", "1", "--program", pr], [0, 1, 2])
+        add(["pipeline", "--workers", "1", "--program", pr], [0, 1] + ([2] if thorough or pr.count("c") >= 3 else []))
     add(["pipeline", "--workers", "1", "--program", "ccccc"], [0, 1, 2])
     add(["pipeline", "--workers", "1", "--program", "cccccc"], [0, 1])
+    # zero-length contents: clusters holding only empty contents, alone or next to data
+    for pr in ["e", "f", "ec", "ce", "fr", "rf", "ef", "fe", "rec", "cfr", "ecf", "fce", "eec", "cee"]:
+        add(["pipeline", "--workers", "1", "--program", pr], [0, 1, 2])
+    for pr in ["ec", "ce", "ef"]:
+        add(["pipeline", "--workers", "2", "--program", pr], [0, 1])
     for n in (1, 2):
         for pr in progs(n):
             add(["pipeline", "--workers", "2", "--program", pr], [0, 1, 2])
@@ -138,11 +143,20 @@ def main():
         if r.get("cap"):
             caps.append(f"{name}: not finished within {cap_s}s")
             continue
+        if "crash" in r and "PANIC:" not in r["crash"] and "panic" in r["crash"].lower() and "aborting" in r["crash"]:
+            r["crash"] = "PANIC: " + r["crash"][-200:].replace("\n", " ")
         if "crash" in r:
             # loom aborts the process on some failures (double panic): a detection when the output
             # names a loom verdict, machinery otherwise
             txt = r["crash"]
-            if "deadlock" in txt.lower() or "Causality" in txt or "assert" in txt.lower():
+            if "PANIC:" in txt and not ("deadlock" in txt.lower() or "Causality" in txt):
+                first = [l for l in txt.splitlines() if l.startswith("PANIC:")]
+                msg = first[0][7:] if first else "panic"
+                site = msg.split(" at ")[-1].split(":")[0] if " at " in msg else "?"
+                site = "/".join(site.split("/")[-3:])
+                k = f"{prop} a thread panicked under loom (process aborted) at {site}"
+                violations.setdefault(k, {"key": k, "what": f"{name}: {msg[:300]}", "case": {"engine": "loomdrv.py", "sub": sub, "cfg": r["cfg"]}, "count": 0})["count"] += 1
+            elif "deadlock" in txt.lower() or "Causality" in txt or "assert" in txt.lower():
                 k = f"{prop} loom verdict (process aborted): " + ("deadlock" if "deadlock" in txt.lower() else "race/assertion")
                 violations.setdefault(k, {"key": k, "what": f"{name}: {txt[-300:]}", "case": {"engine": "loomdrv.py", "cfg": r["cfg"]}, "count": 0})["count"] += 1
             else:
